@@ -32,6 +32,9 @@ def DataFrame_left_join_decorators : List String := ["deco.new_from_generator"]
 /-- the signature of dataiter/data_frame.py: DataFrame.left_join: parameters in order, with the source text of their defaults -/
 def DataFrame_left_join_signature : List String := ["self", "other", "*by"]
 
+/-- the calls of dataiter/data_frame.py: DataFrame.left_join in the order Python makes them along the source text -/
+def DataFrame_left_join_call_order : List String := ["self._split_join_by", "other.drop_na", "other.drop_na(*by2).unique", "self._get_join_indices", "self.items", "column.copy", "other.items", "Vector.fast", "Vector.fast([value], dtype).repeat", "new.copy"]
+
 /-- dataiter/data_frame.py: DataFrame.inner_join (sha256 of the function source: 4dbdeabd107d4c04) -/
 def DataFrame_inner_join (truth : Term → Bool) : Out :=
   let tup0_1' : Term := (Term.app "._split_join_by" [(Term.sym "self"), (Term.app "*" [(Term.sym "by")])]);
@@ -51,6 +54,9 @@ def DataFrame_inner_join_decorators : List String := ["deco.new_from_generator"]
 /-- the signature of dataiter/data_frame.py: DataFrame.inner_join: parameters in order, with the source text of their defaults -/
 def DataFrame_inner_join_signature : List String := ["self", "other", "*by"]
 
+/-- the calls of dataiter/data_frame.py: DataFrame.inner_join in the order Python makes them along the source text -/
+def DataFrame_inner_join_call_order : List String := ["self._split_join_by", "other.drop_na", "other.drop_na(*by2).unique", "self._get_join_indices", "self.items", "column[found].copy", "other.items", "column[src[found]].copy"]
+
 /-- dataiter/data_frame.py: DataFrame.semi_join (sha256 of the function source: d6cf60209f5136da) -/
 def DataFrame_semi_join (truth : Term → Bool) : Out :=
   let tup0_1' : Term := (Term.app "._split_join_by" [(Term.sym "self"), (Term.app "*" [(Term.sym "by")])]);
@@ -68,6 +74,9 @@ def DataFrame_semi_join_decorators : List String := ["deco.new_from_generator"]
 
 /-- the signature of dataiter/data_frame.py: DataFrame.semi_join: parameters in order, with the source text of their defaults -/
 def DataFrame_semi_join_signature : List String := ["self", "other", "*by"]
+
+/-- the calls of dataiter/data_frame.py: DataFrame.semi_join in the order Python makes them along the source text -/
+def DataFrame_semi_join_call_order : List String := ["self._split_join_by", "other.drop_na", "other.drop_na(*by2).unique", "self._get_join_indices", "self.items", "column[found].copy"]
 
 /-- dataiter/data_frame.py: DataFrame.anti_join (sha256 of the function source: 09e57d87cbee322c) -/
 def DataFrame_anti_join (truth : Term → Bool) : Out :=
@@ -87,6 +96,9 @@ def DataFrame_anti_join_decorators : List String := ["deco.new_from_generator"]
 /-- the signature of dataiter/data_frame.py: DataFrame.anti_join: parameters in order, with the source text of their defaults -/
 def DataFrame_anti_join_signature : List String := ["self", "other", "*by"]
 
+/-- the calls of dataiter/data_frame.py: DataFrame.anti_join in the order Python makes them along the source text -/
+def DataFrame_anti_join_call_order : List String := ["self._split_join_by", "other.drop_na", "other.drop_na(*by2).unique", "self._get_join_indices", "self.items", "np.delete"]
+
 /-- dataiter/data_frame.py: DataFrame._split_join_by (sha256 of the function source: 514e3228ccced4c1) -/
 def DataFrame_split_join_by (truth : Term → Bool) : Out :=
   let by1' : Term := (Term.app "ListComp" [(Term.app "ifexp" [(Term.app "isinstance" [(Term.sym "x"), (Term.sym "str")]), (Term.sym "x"), (Term.app "getitem" [(Term.sym "x"), (Term.int (0 : Int))])]), (Term.app "in" [(Term.sym "x"), (Term.sym "by"), (Term.app "if" [])])]);
@@ -98,6 +110,9 @@ def DataFrame_split_join_by_decorators : List String := []
 
 /-- the signature of dataiter/data_frame.py: DataFrame._split_join_by: parameters in order, with the source text of their defaults -/
 def DataFrame_split_join_by_signature : List String := ["self", "*by"]
+
+/-- the calls of dataiter/data_frame.py: DataFrame._split_join_by in the order Python makes them along the source text -/
+def DataFrame_split_join_by_call_order : List String := ["isinstance", "isinstance"]
 
 /-- dataiter/data_frame.py: DataFrame._get_join_indices (sha256 of the function source: 9827df43ea4b302b) -/
 def DataFrame_get_join_indices (truth : Term → Bool) : Out :=
@@ -118,5 +133,8 @@ def DataFrame_get_join_indices_decorators : List String := []
 
 /-- the signature of dataiter/data_frame.py: DataFrame._get_join_indices: parameters in order, with the source text of their defaults -/
 def DataFrame_get_join_indices_signature : List String := ["self", "other", "by1", "by2"]
+
+/-- the calls of dataiter/data_frame.py: DataFrame._get_join_indices in the order Python makes them along the source text -/
+def DataFrame_get_join_indices_call_order : List String := ["zip", "enumerate", "key1.is_datetime", "key2.is_datetime", "np.promote_types", "key1.astype", "key2.astype", "new1.astype", "new1.astype(key1.dtype).equal", "new1.astype(key1.dtype).equal(key1).all", "new2.astype", "new2.astype(key2.dtype).equal", "new2.astype(key2.dtype).equal(key2).all", "zip", "list", "range", "zip", "map", "np.fromiter", "np.where"]
 
 end DI.Gen
